@@ -36,6 +36,7 @@ pub struct Collector {
     pub nt_samples: Vec<Value>,
     pub notes: BTreeMap<String, u64>,
     pub frozen: bool,
+    pub offers: u64,
 }
 
 impl Collector {
@@ -65,17 +66,31 @@ impl Collector {
             self.nontrivial.insert(fp);
         }
     }
-    /// offer a sample (rendered lazily); a few per worker are kept
+    /// offer a sample (rendered lazily); a few per worker are kept. Among the first 150 offers
+    /// the more elaborate ones (longer rendering, up to 3 KB) replace simpler ones, so that the
+    /// evidence shows representative rather than minimal cases.
     pub fn sample(&mut self, nontrivial: bool, f: impl FnOnce() -> Value) {
         if self.frozen {
             return;
         }
-        if nontrivial {
-            if self.nt_samples.len() < 2 {
-                self.nt_samples.push(f());
+        let (list, cap) = if nontrivial { (&mut self.nt_samples, 2) } else { (&mut self.samples, 1) };
+        self.offers += 1;
+        if list.len() < cap {
+            list.push(f());
+            return;
+        }
+        if self.offers > 150 {
+            return;
+        }
+        let v = f();
+        let len = v.to_string().len();
+        if len > 3000 {
+            return;
+        }
+        if let Some((i, l)) = list.iter().enumerate().map(|(i, x)| (i, x.to_string().len())).min_by_key(|(_, l)| *l) {
+            if len > l {
+                list[i] = v;
             }
-        } else if self.samples.len() < 1 {
-            self.samples.push(f());
         }
     }
     pub fn merge(&mut self, o: Collector) {
@@ -359,7 +374,9 @@ impl Report {
             }
         }
         let mut samples: Vec<Value> = vec![];
-        samples.extend(st.nt_samples.iter().take(4).cloned());
+        let mut nts: Vec<&Value> = st.nt_samples.iter().collect();
+        nts.sort_by_key(|v| std::cmp::Reverse(v.to_string().len()));
+        samples.extend(nts.into_iter().take(4).cloned());
         samples.extend(st.samples.iter().take(2).cloned());
         if samples.is_empty() {
             samples.push(json!("no sample recorded"));
